@@ -242,6 +242,26 @@ func (x Const) Src() string {
 	return fmt.Sprintf("%s(%d)", x.T.Src(), x.V)
 }
 
+// BigConst is a typed non-negative constant of any size, written T(0x...).
+type BigConst struct {
+	T Type
+	V *big.Int
+}
+
+func (x BigConst) Eval(e *Env) Value { return Scalar(x.T, new(big.Int).Set(x.V)) }
+func (x BigConst) Src() string       { return fmt.Sprintf("%s(0x%x)", x.T.Src(), x.V) }
+
+// UConst is an untyped non-negative integer literal written where a value of type T is expected (an assignment
+// to, or an operation with, a T): the literal takes that type (language: untyped constants convert to the
+// type of the context).
+type UConst struct {
+	T Type
+	V int64
+}
+
+func (x UConst) Eval(e *Env) Value { return Scalar(x.T, big.NewInt(x.V)) }
+func (x UConst) Src() string       { return fmt.Sprint(x.V) }
+
 // Lit is an untyped small constant (used for shift counts and loop bounds).
 type Lit struct{ V int64 }
 
